@@ -466,6 +466,7 @@ struct RunSpec
     double res;
     std::string query{"single"};  // single | multistart | goalstates | region
     json params = json::object();  // planner parameters set through the ParamSet (name -> value as string)
+    bool apart{false};             // additional starts / goals placed so that no start / goal pair can be joined
 };
 
 // declared planner parameters of a job ("params": {name: value-as-string}), set the way a user does (ParamSet)
@@ -494,7 +495,7 @@ static json runOne(const std::vector<Entry> &reg, const json &cs, const RunSpec 
     ompl::RNG::setSeed(rs.seed);
     vt::Rng jit(rs.seed);
     std::vector<int> xstarts, xgoals;
-    auto pd = makeQueryVariant(pr, rs.query, cs["start"], cs["goal"], thresholdFor(rs.thr), jit, xstarts, xgoals);
+    auto pd = makeQueryVariant(pr, rs.query, cs["start"], cs["goal"], thresholdFor(rs.thr), jit, xstarts, xgoals, rs.apart);
     ob::PlannerPtr p = e->make(pr.si);
     p->setProblemDefinition(pd);
     setRange(p, rangeFor(rs.range));
@@ -532,6 +533,7 @@ static json runOne(const std::vector<Entry> &reg, const json &cs, const RunSpec 
     ev["start"] = cs["start"];
     ev["goal"] = cs["goal"];
     ev["query"] = rs.query;
+    ev["apart"] = rs.apart;
     ev["params"] = rs.params;
     ev["paramsRejected"] = rejected;
     ev["xstarts"] = xstarts;
@@ -1164,6 +1166,7 @@ int main(int argc, char **argv)
                 RunSpec rs{r["planner"], r["space"], r["thr"], r["range"], r["budget"], r["seed"], r["res"]};
                 rs.query = r.value("query", "single");
                 rs.params = r.value("params", json::object());
+                rs.apart = r.value("apart", false);
                 const Entry *e = findPlanner(reg, rs.planner);
                 if (!e || (!supports(*e, rs.space) && !getenv("VERIF_FORCE_SPACE")))
                     continue;
